@@ -145,6 +145,14 @@ def tasks(tier):
                        breaker=brk, faults=[(site, idx, t)])
             out.append({"family": "records-event-hook-fault", "cfg": cfg, "entry": e, "bound": 0,
                         "ncalls": 1})
+    # an exception instance that went through one policy's retry loop (whose classifier called it
+    # S / T) is raised again, untouched, in a call through a retry-less policy on the same breaker
+    for e1, e2, k in itertools.product(["Policy.call", "Policy.execute", "AsyncPolicy.call"],
+                                       NO_RETRY, ["S", "T"]):
+        cfg = dict(M=1, alphabet=["same", "ok"], script_prefix=[f"xsc:{k}"], max_unknown=None,
+                   breaker={"threshold": 5, "window": 8, "recovery": 2, "trip_on": ["T", "U", "P", "S"]})
+        out.append({"family": "records-travelling-exception", "cfg": cfg, "entry": e1, "bound": 0,
+                    "ncalls": 2, "entries": [e1, e2]})
     # call sequences sharing one breaker (rejections, probes)
     n = 2 if tier == "quick" else 3
     for e, thr in itertools.product(WITH_RETRY[:4], [1, 2]):
@@ -238,6 +246,12 @@ def _monitor_trace(trace, cfg):
             want = ("cancel", None)
         elif fin.last is not None and fin.last.failed:
             want = ("failure", fin.last.klass)
+            if call.entry.split(".")[0].endswith("0") and any(
+                    r[0] == "stringcode" and r[1] == fin.last.n for r in call.records):
+                # a retry-less policy classifies with the built-in classifier, which calls an
+                # exception with a string code and no status UNKNOWN - whatever another policy's
+                # classifier said about the same instance earlier
+                want = ("failure", "U")
         else:
             continue
         if (rec[1], rec[2]) != want:
@@ -246,7 +260,7 @@ def _monitor_trace(trace, cfg):
     return v
 
 
-def run_multi(cfg, entry, ch, ncalls):
+def run_multi(cfg, entry, ch, ncalls, entries=None):
     full = seq.mkcfg(**cfg)
     w = seq.World(full, ch)
     for k in range(ncalls):
@@ -254,15 +268,17 @@ def run_multi(cfg, entry, ch, ncalls):
             t = (0, 2)[ch.choose("tick", 2, True)]
             if t:
                 w.tick(t)
-        w.call(entry)
+        w.call(entries[k] if entries else entry)
     return w, monitor(w, full)
 
 
 def run_task(task, seed):
     n = task["ncalls"]
-    return explore_task(task, seed, lambda cfg, e, ch: run_multi(cfg, e, ch, n))
+    ents = task.get("entries")
+    return explore_task(task, seed, lambda cfg, e, ch: run_multi(cfg, e, ch, n, ents))
 
 
 def replay(doc):
     n = doc["extra"]["ncalls"]
-    return run_multi(doc["cfg"], doc["entry"], Chooser(tuple(doc["choices"])), n)
+    return run_multi(doc["cfg"], doc["entry"], Chooser(tuple(doc["choices"])), n,
+                     doc["extra"].get("entries"))
